@@ -119,27 +119,34 @@ func createDefaultFunctions(a aliaser, o output.Output) template.FuncMap {
 		}
 	}
 
+	// the packages the template imports are always full paths,
+	// aliases defined by users in meta.imports must not be applied to them
+	aliasPath := a.Alias
+	if p, ok := a.(interface{ AliasPath(string) string }); ok {
+		aliasPath = p.AliasPath
+	}
+
 	return template.FuncMap{
 		"export": func(input any) (string, error) {
 			return exporter.Export(input)
 		},
 		"importAlias": func(i string) string {
-			return a.Alias(i)
+			return aliasPath(i)
 		},
 		"containerAlias": func() string {
-			return a.Alias(consts.GontainerHelperPath + "/container")
+			return aliasPath(consts.GontainerHelperPath + "/container")
 		},
 		"groupErrorAlias": func() string {
-			return a.Alias(consts.GontainerHelperPath + "/grouperror")
+			return aliasPath(consts.GontainerHelperPath + "/grouperror")
 		},
 		"exporterAlias": func() string {
-			return a.Alias(consts.GontainerHelperPath + "/exporter")
+			return aliasPath(consts.GontainerHelperPath + "/exporter")
 		},
 		"callerAlias": func() string {
-			return a.Alias(consts.GontainerHelperPath + "/caller")
+			return aliasPath(consts.GontainerHelperPath + "/caller")
 		},
 		"copierAlias": func() string {
-			return a.Alias(consts.GontainerHelperPath + "/copier")
+			return aliasPath(consts.GontainerHelperPath + "/copier")
 		},
 		"isTagged": func(id string, tag string) bool {
 			_, ok := tagsServices[tag][id]
